@@ -88,7 +88,7 @@ def render_field_ctor(f):
             args.append("default=%r" % f["default"])
         s = "Data(%s)" % ", ".join(args)
     elif k == "bits":
-        s = "Bits(%d%s)" % (f["w"], (", default=%r" % f["default"]) if f.get("default") is not None else "")
+        s = "Bits(%d%s)" % (f["w"], ((", %r" if f.get("posdefault") else ", default=%r") % f["default"]) if f.get("default") is not None else "")
     elif k == "ref":
         if f.get("kwargs") is not None:
             s = "Ref(%s(%s))" % (f["to"], ", ".join("%s=%s" % (a, render_value(b)) for a, b in f["kwargs"].items()))
